@@ -339,17 +339,22 @@ def _work(item):
 
 
 def _work_chain(item):
-    i1, i2, res, start, direction, mode = item
+    i1, i2, res, start, direction, mode = item[:6]
     run = TraceRun(start, mode, direction, res, dp=8)
     out = []
     total = 0
     s = start
-    for idx in (i1, i2):
+    flip = len(item) > 6 and item[6]
+    for step, idx in enumerate((i1, i2)):
+        if flip and step == 1:
+            # the direction is changed on the live builder between the two shapes
+            direction = "counter" if direction == "clockwise" else "clockwise"
+            run.st.g.set_direction(direction)
         # the logical position is carried exactly from shape to shape (a caller knows where a path ended);
         # the interpreter's position only differs from it by output rounding
         shape, args, exp = GRID[idx][1](s, direction)
         exc, verts = run.trace(shape, args, start=s)
-        rp = {"chain": [i1, i2], "resolution": res, "start": start, "direction": direction, "mode": mode, "dp": 8}
+        rp = {"chain": [i1, i2], "resolution": res, "start": start, "direction": item[4], "mode": mode, "dp": 8, "flip": bool(flip)}
         if exc is not None:
             out.append((f"{shape}:raised", f"chained {shape}({args}) from {s} raised {exc!r}", rp))
             break
@@ -396,6 +401,7 @@ def run(tier, seed):
     GRID += [(0.5, b) for b in chain_builders]
     rep_idx = list(range(base, base + len(chain_builders)))
     chains = [(a, b, 0.5, STARTS[1], d, m) for a in rep_idx for b in rep_idx for d in DIRS for m in MODES]
+    chains += [(a, b, 0.5, STARTS[2], d, "absolute", True) for a in rep_idx for b in rep_idx for d in DIRS]
     results2 = pmap(_work_chain, chains, chunksize=2)
     shapes, nverts, distinct = {}, 0, set()
     for out, shape, n in list(results) + list(results2):
@@ -428,7 +434,7 @@ def replay(body):
     GRID = grid(tier)
     GRID += [(0.5, b) for b in CHAIN_BUILDERS]
     if "chain" in rp:
-        out, _, _ = _work_chain((rp["chain"][0], rp["chain"][1], rp["resolution"], tuple(rp["start"]), rp["direction"], rp["mode"]))
+        out, _, _ = _work_chain((rp["chain"][0], rp["chain"][1], rp["resolution"], tuple(rp["start"]), rp["direction"], rp["mode"], rp.get("flip", False)))
     else:
         out, _, _ = _work((rp["grid_index"], rp["resolution"], tuple(rp["start"]), rp["direction"], rp["mode"], rp["dp"]))
     return {"violations": [(s, m) for s, m, _ in out]}
